@@ -214,8 +214,10 @@ def parse_console_final(stdout):
 def console_fields_missing(t, sol):
     """Which of the solution's fields do NOT appear, as numbers, in the final part of what the console listener printed?"""
     text = t.stdout
-    i = max(text.lower().rfind("result"), text.lower().rfind("solution"))
+    i = text.lower().rfind("result")
     blk = text[i:] if i >= 0 else "\n".join(text.splitlines()[-15:])
+    if len(blk.splitlines()) < 4:
+        blk = "\n".join(text.splitlines()[-15:])
     toks = []
     for m in re.finditer(r"[-+]?(?:\d+\.\d*|\.\d+|\d+)(?:[eE][-+]?\d+)?|[-+]?inf|nan", blk):
         try:
